@@ -278,24 +278,31 @@ func check(verifDir, repo, id, tier, replay string) int {
 	}
 	var bin string
 	var genInfo *genResult
+	bins := map[string]string{}
+	pkgs := append([]string{meta.Pkg}, meta.Also...)
 	if meta.Pkg == "pam" {
 		b, err := buildPam(verifDir, repo)
 		if err != nil {
 			die2("build pamsim: %v", err)
 		}
 		bin = b
+		bins["pam"] = b
 	} else {
 		g, err := simgen(verifDir, repo, baseEnv())
 		if err != nil {
 			die2("simgen: %v", err)
 		}
 		genInfo = g
-		b, err := buildHarness(verifDir, repo, g, meta.Pkg)
-		if err != nil {
-			die2("build: %v", err)
+		for _, pk := range pkgs {
+			b, err := buildHarness(verifDir, repo, g, pk)
+			if err != nil {
+				die2("build: %v", err)
+			}
+			bins[pk] = b
 		}
-		bin = b
+		bin = bins[meta.Pkg]
 	}
+	pkgOf := func(k int) string { return pkgs[k%len(pkgs)] }
 	pamsimBin := ""
 	if meta.Pkg == "sasl" {
 		// C05 / C13 feed server replies and requests to the compiled PAM module
@@ -320,6 +327,12 @@ func check(verifDir, repo, id, tier, replay string) int {
 
 	if replay != "" {
 		replay, _ = filepath.Abs(replay)
+		if rb, err := os.ReadFile(replay); err == nil {
+			var rf replayFile
+			if json.Unmarshal(rb, &rf) == nil && bins[rf.Pkg] != "" {
+				bin = bins[rf.Pkg]
+			}
+		}
 		return doReplay(bin, scratch, id, replay, knownSigs, meta)
 	}
 
@@ -361,7 +374,7 @@ func check(verifDir, repo, id, tier, replay string) int {
 			cur := filepath.Join(scratch, fmt.Sprintf("w%d.cur", k))
 			wd := filepath.Join(scratch, fmt.Sprintf("wd%d", k))
 			os.MkdirAll(wd, 0o755)
-			cmd := workerCmd(bin, meta, wd)
+			cmd := workerCmd(bins[pkgOf(k)], meta, wd)
 			cmd.Env = append(baseEnv(),
 				"VERIF_PROP="+id, "VERIF_TIER="+tier, fmt.Sprintf("VERIF_BASE=%d", seed),
 				fmt.Sprintf("VERIF_FROM=%d", k), fmt.Sprintf("VERIF_TO=%d", maxRuns), fmt.Sprintf("VERIF_STRIDE=%d", nworkers),
@@ -417,6 +430,7 @@ func check(verifDir, repo, id, tier, replay string) int {
 					foreign = append(foreign, l.Foreign)
 				}
 			case "violation":
+				l.Tier = pkgOf(k) // carried to the replay file: which harness binary produced it
 				viols = append(viols, l)
 			case "error":
 				cannot = append(cannot, l.Msg)
@@ -440,7 +454,7 @@ func check(verifDir, repo, id, tier, replay string) int {
 				cannot = append(cannot, fmt.Sprintf("worker %d died in run idx=%d seed=%d outside the code under test:\n%s", k, idx, rs, tail))
 				continue
 			}
-			viols = append(viols, resultLine{Type: "violation", Prop: id, Sig: sig, Seed: rs, Idx: idx, Tier: tier,
+			viols = append(viols, resultLine{Type: "violation", Prop: id, Sig: sig, Seed: rs, Idx: idx, Tier: pkgOf(k),
 				Msg: "the process crashed (unrecovered panic in a goroutine of the code under test):\n" + tail, Log: []string{"(process-level crash: seed-only replay)"}, LogHash: "crash"})
 		}
 	}
@@ -473,12 +487,12 @@ func check(verifDir, repo, id, tier, replay string) int {
 		}
 		h := sha256.Sum256([]byte(v.Sig))
 		rp := filepath.Join(replayDir, fmt.Sprintf("%s-%s-%d.json", id, hex.EncodeToString(h[:4]), v.Seed))
-		rf := replayFile{Prop: id, Sig: v.Sig, Msg: v.Msg, Seed: v.Seed, Tier: tier, Tape: v.Tape, Decisions: v.Decisions, Log: v.Log, LogHash: v.LogHash, OrigLen: v.OrigLen, Pkg: meta.Pkg, SeedOnly: v.LogHash == "crash"}
+		rf := replayFile{Prop: id, Sig: v.Sig, Msg: v.Msg, Seed: v.Seed, Tier: tier, Tape: v.Tape, Decisions: v.Decisions, Log: v.Log, LogHash: v.LogHash, OrigLen: v.OrigLen, Pkg: v.Tier, SeedOnly: v.LogHash == "crash"}
 		b, _ := json.MarshalIndent(rf, "", " ")
 		os.WriteFile(rp, b, 0o644)
 		if v.LogHash != "crash" {
 			// fresh-process confirmation
-			rl, out, err := runReplay(bin, scratch, id, rp, knownSigs, meta)
+			rl, out, err := runReplay(bins[v.Tier], scratch, id, rp, knownSigs, meta)
 			if err != nil || rl == nil {
 				cannot = append(cannot, fmt.Sprintf("replay of %s could not run: %v\n%s", rp, err, out))
 				continue
